@@ -192,6 +192,17 @@ O(id='uper_encode_to_new_buffer', props=['C07', 'C14'], kind='bounded', tier='ex
   unwind=10, bound=APIB + '; every allocation may fail', min_props=30,
   **dict(API, fp_restrict=cb_restrict(['encode_dyn_cb'], []), cbmc=['--unwindset', 'asn_put_few_bits:3', '--malloc-may-fail', '--malloc-fail-null', '--memory-leak-check']))
 
+# ---------------------------------------------------------------- DER TL writer
+DE = dict(harness='harness/h_der_encoder.c', units=[SK + 'der_encoder.c'], include=[], backends=['sat'])
+O(id='der_write_TL', props=['C02', 'C07'], kind='width', entry='h_der_write_TL', functions=['der_write_TL'], proves=['der_write_TL'],
+  unwind=42, cbmc=['--unwindset', 'ber_fetch_length.0:10,ber_fetch_tag.0:8'], bound='all tags, all lengths 0..RSSIZE_MAX; callback may fail', min_props=40, **DE)
+for _tc in range(5):
+    for _tm in (-1, 0, 1):
+        O(id='der_write_tags.c%d.m%d' % (_tc, _tm), props=['C02', 'C07'], kind='bounded', entry='h_der_write_tags', functions=['der_write_tags', 'der_write_TL'],
+          defines=['VF_TAGS_COUNT=%d' % _tc, 'VF_TAG_MODE=%d' % _tm], unwind=42, cbmc=['--unwindset', 'ber_fetch_length.0:10,ber_fetch_tag.0:8'],
+          bound='descriptor with %d tags, tag_mode %d, tag numbers < 2^14, contents length <= 2^40; callback may fail at any call' % (_tc, _tm),
+          min_props=40, timeout=600, **DE)
+
 UNVERIFIED = {
  'C07': ['asn_encode_to_buffer / asn_encode_to_new_buffer / uper_encode_to_buffer / uper_encode_to_new_buffer with a UPER type encoder: obligations exist (tier experimental) but do not discharge (symbolic-length memcpy of the 32-octet bit scratch space runs out of memory); asn_encode with UPER is covered',
          'every constructed / generated type encoder is assumed to follow the operation-slot convention enumerated by the stub encoder',
